@@ -23,6 +23,8 @@ type seg struct {
 	note   string
 	fr     *frame     // deep evaluator: the frame val lives in
 	origin *hexOrigin // deep evaluator: what a hex group prints
+	// plainBytes: a %x without flags or padding that alter the digits of a byte slice
+	plainBytes bool
 }
 
 func (s seg) String() string {
@@ -108,6 +110,19 @@ func byteLen(v ssa.Value) (int64, bool) {
 	}
 	switch x := v.(type) {
 	case *ssa.Slice:
+		// both bounds constant: the length does not depend on the base
+		if x.High != nil {
+			if h, okH := ir.ConstInt(x.High); okH {
+				l := int64(0)
+				okL := true
+				if x.Low != nil {
+					l, okL = ir.ConstInt(x.Low)
+				}
+				if okL {
+					return h - l, true
+				}
+			}
+		}
 		base, ok := byteLen(x.X)
 		if !ok {
 			return 0, false
@@ -212,6 +227,10 @@ func sprintfLang(format string, args []ssa.Value) []seg {
 		case 'x', 'X':
 			s := seg{kind: "hex", upper: verb == 'X', val: arg, digits: -1}
 			if arg != nil && !strings.ContainsAny(flags, "#+- ") {
+				// a byte slice printed without flags that change the digits (and without padding)
+				if n, ok := byteLen(arg); width < 0 || ok && width <= int(2*n) {
+					s.plainBytes = true
+				}
 				if w, ok := uintWidth(arg.Type()); ok {
 					if strings.Contains(flags, "0") && width == 2*w {
 						s.digits = width
